@@ -133,19 +133,33 @@ def nonherm_from_spec(rng, gspec, cplx):
 def rand_gspec(rng, n, cplx, simple=False):
     """Gaussian-integer spectrum; conjugate pairs adjacent when the matrix is to be real.
     simple=True: all eigenvalues distinct (what a single-vector Krylov method can resolve)."""
-    rmax, imax = (3, 2) if n <= 12 else (6, 4)
-    out, used = [], set()
-    while len(out) < n:
-        a = int(rng.integers(-rmax, rmax + 1))
-        b = int(rng.integers(-imax, imax + 1)) if rng.random() < 0.5 else 0
-        if simple and ((a, b) in used or (a, -b) in used):
-            continue
-        if cplx or b == 0:
-            out.append([a, b])
-            used.add((a, b))
-        elif len(out) + 2 <= n:
-            out += [[a, b], [a, -b]]
-            used.update([(a, b), (a, -b)])
+    rmax, imax = (3, 2) if n <= 6 else (4, 3) if n <= 16 else (7, 4)
+    if not simple:
+        out = []
+        while len(out) < n:
+            a = int(rng.integers(-rmax, rmax + 1))
+            b = int(rng.integers(-imax, imax + 1)) if rng.random() < 0.5 else 0
+            if cplx or b == 0 or len(out) + 2 > n:
+                out.append([a, b if cplx else 0] if (cplx or b == 0) else [a, 0])
+            else:
+                out += [[a, b], [a, -b]]
+        return out
+    # distinct values: draw without replacement from the lattice box (always terminates)
+    reals = [[a, 0] for a in range(-rmax, rmax + 1)]
+    if cplx:
+        cand = [[a, b] for a in range(-rmax, rmax + 1) for b in range(-imax, imax + 1)]
+        idx = rng.permutation(len(cand))[:n]
+        return [cand[int(i)] for i in idx]
+    pairs = [[a, b] for a in range(-rmax, rmax + 1) for b in range(1, imax + 1)]
+    npairs = int(rng.integers(0, n // 2 + 1))
+    npairs = max(npairs, (n - len(reals) + 1) // 2)          # not more singles than real lattice points
+    nreal = n - 2 * npairs
+    out = []
+    for i in rng.permutation(len(pairs))[:npairs]:
+        a, b = pairs[int(i)]
+        out += [[a, b], [a, -b]]
+    out += [reals[int(i)] for i in rng.permutation(len(reals))[:nreal]]
+    assert len(out) == n
     return out
 
 
